@@ -60,7 +60,8 @@ class TransferCase:
     """One world, one or more consecutive transactions, optional cancels / write rejections."""
 
     def __init__(self, cfg: Cfg, datas, faults=(), cancel=None, reject_round=None, extra_sm=0, max_rounds=150,
-                 tag="tc", per_tx_req=None, fault_tx=0):
+                 tag="tc", per_tx_req=None, fault_tx=0, reject_mode=True):
+        self.reject_mode = reject_mode     # True: write_data is refused; 2: creating / truncating the destination file as well
         self.fault_tx = fault_tx           # index of the transaction that the faults / cancel / write rejection apply to
         self.cfg, self.datas, self.faults = cfg, datas, list(faults)
         self.per_tx_req = per_tx_req       # request-level (mode, closure) per transaction on the same handlers
@@ -109,7 +110,7 @@ class TransferCase:
                 if self.reject_round is not None and ti == self.fault_tx:
                     while r.round < self.reject_round and not r.quiescent():
                         r.step_round()
-                    w.dst.set_reject(True)
+                    w.dst.set_reject(self.reject_mode)
                 ok = r.run()
                 if self.reject_round is not None and ti == self.fault_tx:
                     w.dst.set_reject(False)
@@ -183,6 +184,10 @@ def rand_pdu_for_dest(rng, cfg: Cfg, seq, size, seg, hostile):
         else:
             off, ln = rng.randint(0, size + 3), rng.randint(1, seg + 2)
         payload = [(7 * (off + i) + 3) % 256 for i in range(ln)]
+        if rng.random() < 0.2:
+            # the same range with OTHER bytes: a later File Data PDU overwrites what an earlier one stored (C05), and the
+            # file stops matching the EOF checksum
+            payload = [rng.getrandbits(8) for _ in range(ln)]
         return pdu_ints(codec.K_FD, h, [off, ln] + payload)
     if r < 0.55:
         names = [1, 1, 1, 1, 2] if rng.random() < 0.9 else [0]
